@@ -11,9 +11,9 @@ import (
 	"pgregory.net/rapid"
 )
 
-func genCKKSSpec(t *rapid.T) *h.CKKSSpec {
+func genCKKSSpec(t *rapid.T, needP ...bool) *h.CKKSSpec {
 	k := rapid.IntRange(0, 2).Draw(t, "logScale")
-	s := poolSpec(t, true, &tru, []int{0, 2, -3}[k])
+	s := poolSpec(t, true, &tru, []int{0, 2, -3}[k], needP...)
 	return &h.CKKSSpec{RLWESpec: s, LogScale: []int{30, 40, 45}[k]}
 }
 
@@ -71,21 +71,21 @@ func init() {
 			call: func(w *W, a *CT, b any, out *CT, arg [3]int) (*CT, error) { return nil, w.ckks.Conjugate(a, out) }},
 		&opDesc{name: "ConjugateNew", scheme: "ckks", aDegs: d1, isNew: true, gal: galConj,
 			call: func(w *W, a *CT, b any, out *CT, arg [3]int) (*CT, error) { return w.ckks.ConjugateNew(a) }},
-		&opDesc{name: "ApplyEvaluationKey", scheme: "ckks", aDegs: d1, natural: natSame,
+		&opDesc{impl: "rlwe.ApplyEvaluationKey", name: "ApplyEvaluationKey", scheme: "ckks", aDegs: d1, natural: natSame,
 			call: func(w *W, a *CT, b any, out *CT, arg [3]int) (*CT, error) {
 				return nil, w.ckks.ApplyEvaluationKey(a, w.swk, out)
 			}},
-		&opDesc{name: "ApplyEvaluationKeyNew", scheme: "ckks", aDegs: d1, isNew: true,
+		&opDesc{impl: "rlwe.ApplyEvaluationKey", name: "ApplyEvaluationKeyNew", scheme: "ckks", aDegs: d1, isNew: true,
 			call: func(w *W, a *CT, b any, out *CT, arg [3]int) (*CT, error) { return w.ckks.ApplyEvaluationKeyNew(a, w.swk) }},
-		&opDesc{name: "InnerSum", scheme: "ckks", aDegs: d1, natural: natSame, gal: galInnerSum,
+		&opDesc{impl: "rlwe.PartialTracesSum", name: "InnerSum", scheme: "ckks", aDegs: d1, natural: natSame, gal: galInnerSum,
 			call: func(w *W, a *CT, b any, out *CT, arg [3]int) (*CT, error) {
 				return nil, w.ckks.InnerSum(a, arg[0], arg[1], out)
 			}},
-		&opDesc{name: "RotateAndAdd", scheme: "ckks", aDegs: d1, natural: natSame, gal: galInnerSum,
+		&opDesc{impl: "rlwe.PartialTracesSum", name: "RotateAndAdd", scheme: "ckks", aDegs: d1, natural: natSame, gal: galInnerSum,
 			call: func(w *W, a *CT, b any, out *CT, arg [3]int) (*CT, error) {
 				return nil, w.ckks.RotateAndAdd(a, arg[0], arg[1], out)
 			}},
-		&opDesc{name: "Replicate", scheme: "ckks", aDegs: d1, natural: natSame, gal: galReplicate,
+		&opDesc{impl: "rlwe.PartialTracesSum", name: "Replicate", scheme: "ckks", aDegs: d1, natural: natSame, gal: galReplicate,
 			call: func(w *W, a *CT, b any, out *CT, arg [3]int) (*CT, error) {
 				return nil, w.ckks.Replicate(a, arg[0], arg[1], out)
 			}},
